@@ -1,6 +1,6 @@
 SPECIFICATION Spec
 CONSTANTS
-  Pairs = {"covmat"}
+  Pairs = {"covmat", "kr_unique", "xvalid", "ball_mig", "ball_nb", "block1", "colcok", "calc", "reuse"}
   Models = {"A", "C"}
   Small = TRUE
 INVARIANT Inv_PairHolds Inv_MigDeviationsClassified
